@@ -218,6 +218,11 @@ skip_extra_slashes:
   const char* host_ptr = reinterpret_cast<const char*>(b + auth_start);
   const size_t host_len = host_end - auth_start;
 
+  // The full parser rejects a host above the IDNA input guard whenever the
+  // host has to go through domain-to-ASCII (e.g. it has an upper-case letter);
+  // only the full parser can tell, so do not answer from here.
+  if (host_len > ada::idna::max_domain_input_bytes) return std::nullopt;
+
   if (all_dec_dots) {
     // Host is all decimal digits and dots -> try the fast IPv4 parser.
     if (checkers::try_parse_ipv4_fast({host_ptr, host_len}) !=
